@@ -265,7 +265,8 @@ func pgUID(kind, key string) string {
 
 func pgNewServer(psize int, version string) (*pgState, error) {
 	st := &pgState{iters: map[string]*pgIter{}, lastNext: map[string]string{}, keys: map[string][]string{}, psize: psize, script: map[string]*pgScript{}}
-	st.srv = NewServer(&Implementation{Name: "verif", Version: "1"}, &ServerOptions{PageSize: psize})
+	st.srv = NewServer(&Implementation{Name: "verif", Version: "1"}, &ServerOptions{PageSize: psize,
+		CompletionHandler: func(context.Context, *CompleteRequest) (*CompleteResult, error) { return &CompleteResult{}, nil }})
 	// A panic in a method handler would take the whole harness process down: turn it into an answer.
 	st.srv.AddReceivingMiddleware(func(next MethodHandler) MethodHandler {
 		return func(ctx context.Context, method string, req Request) (res Result, err error) {
@@ -560,10 +561,14 @@ func pgApply(stp **pgState, toks []string) (opline, obs string, tags []string) {
 					func(context.Context, *GetPromptRequest) (*GetPromptResult, error) { return &GetPromptResult{}, nil })
 			case "resources":
 				st.srv.AddResource(&Resource{URI: k, Name: v},
-					func(context.Context, *ReadResourceRequest) (*ReadResourceResult, error) { return &ReadResourceResult{}, nil })
+					func(context.Context, *ReadResourceRequest) (*ReadResourceResult, error) {
+						return &ReadResourceResult{Contents: []*ResourceContents{{Text: "x"}}}, nil
+					})
 			case "templates":
 				st.srv.AddResourceTemplate(&ResourceTemplate{URITemplate: k, Name: v},
-					func(context.Context, *ReadResourceRequest) (*ReadResourceResult, error) { return &ReadResourceResult{}, nil })
+					func(context.Context, *ReadResourceRequest) (*ReadResourceResult, error) {
+						return &ReadResourceResult{Contents: []*ResourceContents{{Text: "x"}}}, nil
+					})
 			}
 		}
 		return opline, "ok", []string{"add", "add-" + kind}
@@ -732,6 +737,40 @@ func pgApply(stp **pgState, toks []string) (opline, obs string, tags []string) {
 			tags = append(tags, "iterall-scripted")
 		}
 		return opline, b.String(), tags
+	case "ro":
+		// a read-only request between the others: `ro <what>[.x<hex arg>] <touch>` (touch: the kind whose
+		// sorted index the request walks — template lookup of a resources/read that is no static hit —, or `-`)
+		if len(toks) != 3 {
+			return opline, "bad-op", nil
+		}
+		ctx, cancel := context.WithTimeout(context.Background(), 20*time.Second)
+		defer cancel()
+		what, arg, _ := strings.Cut(toks[1], ".")
+		a := pgUnhex(arg)
+		var err error
+		switch what {
+		case "read":
+			_, err = st.cs.ReadResource(ctx, &ReadResourceParams{URI: a})
+		case "call":
+			_, err = st.cs.CallTool(ctx, &CallToolParams{Name: a})
+		case "prompt":
+			_, err = st.cs.GetPrompt(ctx, &GetPromptParams{Name: a})
+		case "complete":
+			_, err = st.cs.Complete(ctx, &CompleteParams{Ref: &CompleteReference{Type: "ref/prompt", Name: a},
+				Argument: CompleteParamsArgument{Name: "x", Value: "v"}})
+		case "ping":
+			err = st.cs.Ping(ctx, nil)
+		default:
+			return opline, "bad-op", nil
+		}
+		tags = []string{"ro", "ro-" + what, "touch-" + toks[2]}
+		if err != nil {
+			if o := pgErrObs(err); o == "panic" || o == "err timeout" {
+				return opline, o, append(tags, "ro-"+strings.ReplaceAll(o, " ", ""))
+			}
+			return opline, "done", append(tags, "ro-"+what+"-refused")
+		}
+		return opline, "done", append(tags, "ro-"+what+"-served")
 	case "roundtrip":
 		k := pgUnhex(toks[1])
 		c, err := encodeCursor(k)
@@ -930,6 +969,48 @@ func (g *pgGen) mutation(kind string) string {
 	return g.removeOp(kind)
 }
 
+// readonly draws a read-only request: resources/read (a static resource, a URI matching a registered
+// template, a miss), tools/call, prompts/get, completion/complete, ping. Whatever such traffic happens
+// between two list requests, the listing must not change.
+func (g *pgGen) readonly() string {
+	st := *g.st
+	pick := func(kind string) (string, bool) {
+		if ks := st.keys[kind]; len(ks) > 0 && g.rng.Intn(4) != 0 {
+			return ks[g.rng.Intn(len(ks))], true
+		}
+		return g.key(kind), false
+	}
+	switch r := g.rng.Intn(100); {
+	case r < 50:
+		uri := ""
+		switch g.rng.Intn(3) {
+		case 0: // a static resource (mostly a hit: answered before any template is looked at)
+			uri, _ = pick("resources")
+		case 1: // a URI a registered template matches
+			t, _ := pick("templates")
+			uri = strings.Replace(t, "{x}", fmt.Sprintf("v%d", g.rng.Intn(9)), 1)
+		default: // a miss
+			uri = fmt.Sprintf("file:///no-such-resource-%d", g.rng.Intn(1000))
+		}
+		touch := "templates"
+		if pgHas(st.keys["resources"], uri) {
+			touch = "-"
+		}
+		return "ro read.x" + hxs(uri) + " " + touch
+	case r < 65:
+		k, _ := pick("tools")
+		return "ro call.x" + hxs(k) + " -"
+	case r < 80:
+		k, _ := pick("prompts")
+		return "ro prompt.x" + hxs(k) + " -"
+	case r < 90:
+		k, _ := pick("prompts")
+		return "ro complete.x" + hxs(k) + " -"
+	default:
+		return "ro ping -"
+	}
+}
+
 type pgOther struct{ Other string }
 type pgIntUID struct{ LastUID int }
 type pgExtra struct {
@@ -1007,6 +1088,15 @@ type pgEmit func(op string) string
 // traversal: follow cursors from the first page to the end, mutating between fetches.
 func (g *pgGen) traversal(emit pgEmit, kind string, mutateProb int) {
 	st := *g.st
+	roProb := []int{0, 30, 60}[g.rng.Intn(3)] // read-only requests between the fetches
+	// a second, concurrent traversal of the same listing: the client iterator, pulled between the fetches
+	second := g.rng.Intn(4) == 0 && st.iters[kind] == nil
+	for g.rng.Intn(100) < roProb {
+		emit(g.readonly())
+	}
+	if second {
+		emit("iopen " + kind + " -")
+	}
 	emit("tbegin " + kind)
 	raw := ""
 	for page := 0; page < 120; page++ {
@@ -1015,6 +1105,12 @@ func (g *pgGen) traversal(emit pgEmit, kind string, mutateProb int) {
 		raw = st.lastNext[kind]
 		if raw == "" {
 			break
+		}
+		for g.rng.Intn(100) < roProb {
+			emit(g.readonly())
+		}
+		if second && g.rng.Intn(2) == 0 {
+			emit(fmt.Sprintf("ipull %s %d", kind, 1+g.rng.Intn(3)))
 		}
 		for g.rng.Intn(100) < mutateProb {
 			k2 := kind
@@ -1029,6 +1125,10 @@ func (g *pgGen) traversal(emit pgEmit, kind string, mutateProb int) {
 		}
 	}
 	emit("tend " + kind)
+	if second {
+		emit(fmt.Sprintf("ipull %s %d", kind, 1+g.rng.Intn(4)))
+		emit("iclose " + kind)
+	}
 }
 
 func (g *pgGen) iterRun(emit pgEmit, kind string, mutateProb int) {
@@ -1044,6 +1144,9 @@ func (g *pgGen) iterRun(emit pgEmit, kind string, mutateProb int) {
 		}
 		for g.rng.Intn(100) < mutateProb {
 			emit(g.mutation(kind))
+		}
+		for g.rng.Intn(100) < 25 {
+			emit(g.readonly())
 		}
 		if g.rng.Intn(30) == 0 {
 			break // consumer stops early
